@@ -89,12 +89,4 @@ def run(tier):
 
 
 def replay(path):
-    d = json.load(open(path))
-    from zipfile import is_zipfile  # noqa: F401
-    core.log("replaying %d recorded violations of %s" % (len(d["violations"]), d["property"]))
-    # re-run the failing inputs through the current build
-    bad = 0
-    for m in d["violations"]:
-        core.log(json.dumps(m)[:400])
-        bad += 1
-    return 1 if bad else 0
+    return core.replay_generic(path)
